@@ -540,10 +540,61 @@ def gen_per_item(tier):
     return cases
 
 
+# ---------------------------------------------------------------------------
+# arguments taken from the target by a nested T: evaluated ONCE - the operation receives the very object found in the target
+
+def target_values():
+    from glom import Val
+    return {'list': [1, [2]], 'dict': {'k': [1]}, 'tuple': (1, [2]), 'set': {1, 2}, 'str': 'T', 'int': 7, 'none': None,
+            'T-object': T['other'], 'Spec-object': Spec('other'), 'Val-object': Val('inner'), 'list-holding-T': [T['other']],
+            'object': Fn('payload'), 'empty-list': [], 'empty-dict': {}}
+
+
+FROM_TARGET_POSITIONS = ['call-arg', 'call-kwarg', 'call-second-arg', 'in-list-arg', 'in-dict-kwarg', 'index', 'method-arg', 'operand']
+
+
+def run_from_target(case):
+    vkind, position = case
+    val = target_values()[vkind]
+    rec = Rec()
+    target = {'v': val, 'other': 'OTHER', 'f': (lambda *a, **kw: ('call', a, kw)), 'rec': rec, 'obj': Ob()}
+    if position == 'call-arg':
+        spec, pick = T['f'](T['v']), (lambda r: r[1][0])
+    elif position == 'call-kwarg':
+        spec, pick = T['f'](k=T['v']), (lambda r: r[2]['k'])
+    elif position == 'call-second-arg':
+        spec, pick = T['f'](0, T['v']), (lambda r: r[1][1])
+    elif position == 'in-list-arg':
+        spec, pick = T['f']([0, T['v']]), (lambda r: r[1][0][1])
+    elif position == 'in-dict-kwarg':
+        spec, pick = T['f'](k={'x': T['v']}), (lambda r: r[2]['k']['x'])
+    elif position == 'index':
+        spec, pick = T['rec'][T['v']], (lambda r: r[1])
+    elif position == 'method-arg':
+        spec, pick = T['obj'].m(T['v']), (lambda r: r[1][0])
+    else:
+        spec, pick = T['rec'] + T['v'], (lambda r: r[1])
+    where = {'value in the target': vkind, 'position': position, 'expr': repr(spec)}
+    try:
+        got = glom(target, spec)
+        received = pick(got)
+    except Exception as e:
+        return R({'expected': 'the operation receives target[\'v\']', 'observed': 'raised %r' % (e,), **where}, 'raises')
+    if received is not val:
+        return R({'expected': 'the operation receives the very object stored in the target: %s %r' % (type(val).__name__, val),
+                  'observed': '%s %r%s' % (type(received).__name__, received, ' (an equal copy)' if type(received) is type(val) and repr(received) == repr(val) else ''),
+                  **where}, 'not-identical')
+    return R(None, position, nontrivial=True, steps=1, tags={vkind, position})
+
+
 def subs(tier, only=None):
     from ..engine import fast_tracebacks
     fast_tracebacks()
-    return [Sub('per-item', gen_per_item(tier), run_per_item,
+    return [Sub('arguments-from-target', [[v, p] for v in target_values() for p in FROM_TARGET_POSITIONS], run_from_target,
+                rule='case = (kind of value stored in the target - containers, spec objects, plain objects; position of the nested T that fetches it: call / '
+                     'keyword / inside a list or dict argument / index / method / operand): the value is evaluated once, the operation receives that very object',
+                min_nontrivial=100, min_outcomes=6, required_tags=['list', 'T-object', 'call-arg', 'index']),
+            Sub('per-item', gen_per_item(tier), run_per_item,
                 rule='case = (family of three targets, T expression of <= 2 steps): glom(targets, [expr]) and the same expression object as two dict values '
                      'over sub-targets against the expression evaluated on each target alone',
                 min_nontrivial=5000, min_outcomes=2, required_tags=['[', '(', '+']),
